@@ -57,6 +57,46 @@ def rewind_biased(rng, name, nrules=None):
     return Def(name, [('Init', rules)], tags=['rewind'])
 
 
+def stale_family(rng, name, eof=False):
+    """shapes around the saved-match life cycle: a shorter candidate P is saved, a longer rule Q ends
+    in a dead-end accept whose action continues / skips / switches / returns, and a later scan fails
+    in a state that rewinds although nothing was accepted on the way (a join of an accepting and a
+    non-accepting path, or an accepting state whose right context failed)"""
+    cs_ = ['a', 'b', 'c', 'd', 'x', 'w', 'y', 'z', 'm']
+    rng.shuffle(cs_)
+    p, q, x, w, y, z, m = cs_[:7]
+    qkind = rng.choice(['skip', 'cont', 'rcont', 'tok', 'ret', 'sw', 'dyn'])
+    two_sets = qkind == 'sw' or rng.random() < 0.3
+    P = Rule(ch(p), rng.choice(['tok', 'ret']))
+    if qkind == 'sw':
+        Q = Rule(st(p + q), 'sw', target='R1')
+    elif qkind == 'dyn':
+        Q = Rule(st(p + q), 'dyn', choices=[('cont', None), ('ret', None), ('rcont', None)])
+    else:
+        Q = Rule(st(p + q), qkind)
+    X = Rule(ch(x), 'tok')
+    if rng.random() < 0.7:
+        J = Rule(cat(alt(ch(x), ch(w)), st(y + z) if rng.random() < 0.6 else ch(y)), 'tok')
+        tail = [X, J]
+    else:
+        # accepting state with transitions whose only accept has a right context
+        tail = [Rule(plus(ch(x)), 'tok', ctx=ch(';')), Rule(cat(ch(x), ch(y), ch(z)), 'tok')]
+    if rng.random() < 0.4:
+        tail.append(Rule(ch(m), 'skip'))
+    eof_rules = []
+    if eof:
+        eof_rules = [Rule(EOFR, rng.choice(['tok', 'ret']))] if rng.random() < 0.7 else [Rule(cat(ch(x), EOFR), 'tok')]
+    if two_sets:
+        init = [P, Q] + ([] if qkind == 'sw' else tail) + eof_rules
+        rng.shuffle(init)
+        r1 = list(tail) + [Rule(ch(q), 'swret', target='Init')]
+        rng.shuffle(r1)
+        return Def(name, [('Init', init), ('R1', r1)], tags=['stale'])
+    rules = [P, Q] + tail + eof_rules
+    rng.shuffle(rules)
+    return Def(name, [('Init', rules)], tags=['stale'])
+
+
 def small_trees():
     """bounded-exhaustive regex trees over atoms a, b, [a-b], _ (<= 2 operators), as single-rule lexers"""
     atoms = [ch('a'), ch('b'), cs(('a', 'b')), ANY, st('ab')]
@@ -123,6 +163,7 @@ def select(prop, thorough, rng):
         defs = pick('C01', 'rewind')
         defs += [rewind_biased(rng, 'rw%d' % j) for j in range(nrand * 2)]
         defs += [F.rand_def(rng, 'r%d' % j, nsets=1, kinds=['tok', 'tok', 'ret', 'skip'], tags=['C01']) for j in range(nrand // 2)]
+        defs += [stale_family(rng, 'st%d' % j) for j in range(nrand // 2 + 3)]
         variants = ((False, False),)
     elif prop == 'C02':
         defs = pick('C02', 'C11') + c02_defs(rng, thorough)
@@ -133,32 +174,45 @@ def select(prop, thorough, rng):
         kinds = ['tok', 'ret', 'skip', 'sw', 'sw', 'swret', 'swret', 'cont']
         defs += [F.rand_def(rng, 'rs%d' % j, nsets=rng.choice([2, 3, 3, 4]), kinds=kinds, maxrules=3, depth=1, tags=['C03']) for j in range(nrand)]
         defs += [dyn_def(rng, 'dy%d' % j) for j in range(nrand // 3)]
+        defs += [stale_family(rng, 'st%d' % j) for j in range(nrand // 3)]
     elif prop == 'C04':
         defs = pick('C04')
         defs += [F.rand_def(rng, 'cx%d' % j, nsets=rng.choice([1, 1, 2]), ctx_p=0.6, eof_p=0.05, kinds=['tok', 'tok', 'ret', 'skip', 'cont'], maxrules=4, depth=1, tags=['C04']) for j in range(nrand + nrand // 2)]
     elif prop == 'C05':
         defs = pick('C05')
         defs += [F.rand_def(rng, 'eo%d' % j, nsets=rng.choice([1, 2, 2]), eof_p=0.45, kinds=['tok', 'ret', 'skip', 'cont', 'sw', 'swret'], maxrules=4, depth=1, tags=['C05']) for j in range(nrand + nrand // 2)]
+        defs += [stale_family(rng, 'se%d' % j, eof=True) for j in range(nrand // 2 + 2)]
     elif prop == 'C06':
         defs = pick('C06', 'rewind')
         defs += [loc_def(rng, 'lo%d' % j) for j in range(nrand)]
+        defs += [stale_family(rng, 'st%d' % j) for j in range(nrand // 2)]
     elif prop == 'C07':
         defs = pick('C07', 'C01', 'C04')
         defs += [F.rand_def(rng, 'fe%d' % j, nsets=rng.choice([1, 2]), ctx_p=0.15, kinds=['fok', 'ferr', 'ferr', 'fcont', 'tok', 'skip', 'fok'], maxrules=4, depth=2, tags=['C07']) for j in range(nrand)]
         defs += [fdyn_def(rng, 'fd%d' % j) for j in range(nrand // 3)]
+        defs += [stale_family(rng, 'st%d' % j, eof=(j % 2 == 0)) for j in range(nrand // 3)]
     elif prop == 'C08':
         defs = pick('C08')
         kinds = ['tok', 'ret', 'skip', 'sw', 'sw', 'swret', 'cont']
         defs += [F.rand_def(rng, 'rc%d' % j, nsets=rng.choice([2, 2, 3]), kinds=kinds, maxrules=3, depth=1, tags=['C08']) for j in range(nrand)]
         defs += [dyn_def(rng, 'dr%d' % j) for j in range(nrand // 3)]
+        defs += [stale_family(rng, 'st%d' % j) for j in range(nrand // 3)]
     elif prop == 'C09':
         defs = list(cur)
         defs += [F.rand_def(rng, 'pg%d' % j, ctx_p=0.2, eof_p=0.15, tags=['C09']) for j in range(nrand)]
         defs += [dyn_def(rng, 'dp%d' % j) for j in range(nrand // 3)]
+        defs += [stale_family(rng, 'st%d' % j) for j in range(nrand // 2)]
     elif prop == 'C10':
         defs = pick('C10')
         defs += [dyn_def(rng, 'da%d' % j) for j in range(nrand)]
         defs += [F.rand_def(rng, 'ak%d' % j, kinds=['ret', 'cont', 'rcont', 'skip', 'tok', 'sw', 'swret'], ctx_p=0.1, eof_p=0.1, tags=['C10']) for j in range(nrand // 2)]
+        defs += [stale_family(rng, 'st%d' % j) for j in range(nrand // 2 + 3)]
+    elif prop in ('C14', 'C15'):
+        defs = pick('C03', 'C05', 'C07', 'C10', 'rewind')
+        defs += [F.rand_def(rng, 'cc%d' % j, ctx_p=0.1, eof_p=0.1, tags=[prop]) for j in range(nrand // 2)]
+        defs += [dyn_def(rng, 'cd%d' % j) for j in range(nrand // 4)]
+        if prop == 'C14':
+            variants = ((False, False),)
     else:
         raise ValueError(prop)
     defs = [d for d in uniq(defs) if d.wellformed()]
@@ -234,6 +288,8 @@ NONTRIVIAL = {
     'C08': (['invalid'], 'a failure (InvalidToken) was produced'),
     'C09': (['token'], 'a token was produced'),
     'C10': (['token'], 'an action ran and a token was produced'),
+    'C14': (['token'], 'all four constructors were executed'),
+    'C15': (['token'], 'a clone was taken after a token'),
 }
 
 
